@@ -42,10 +42,13 @@ def stat_cache(l):
 def proj_c06(l):
     if l.startswith("ret"):
         return ret_kind(l)
-    if l.startswith(("st ", "read ", "open ", "res ", "dropped")):
+    if l.startswith(("st ", "read ", "open ", "res ", "dropped", "size ", "dir ")):
         return l
     if l.startswith("stat "):
-        return "stat " + stat_cache(l)
+        # item count / size / limits / boundary; the hit/miss counters move with
+        # the harness' own reads
+        m = re.search(r"cache=(\S+)", l)
+        return "stat " + (m.group(0) if m else l)
     return None
 
 
@@ -145,24 +148,133 @@ def oracle_c16(script, ig, mg):
     return fails
 
 
+WRITE_WORDS = ("vote", "app", "trunc", "purge", "commit", "ud")
+NO_OUTPUT = ("cfg", "drain", "fsop", "lay", "crash")
+
+
+def primary_cmds(script):
+    return [l for l in script if l.split()[0] not in NO_OUTPUT]
+
+
+def rejected_positions(mg):
+    """Group indexes of the calls the reference log rejects."""
+    return [i for i, g in enumerate(mg) if any(x.startswith("ret err") for x in g.spec)]
+
+
+def c06_obs(g):
+    return proj_c06(g.line)
+
+
+QUERY_CH = ("st ", "read ", "stat ", "res ", "size ", "dir ")
+
+
+def bracket(gs, i):
+    """Observations right before and right after group i, per query channel
+    present on both sides."""
+    before, after = {}, {}
+    k = i - 1
+    while k >= 0 and gs[k].line.startswith(QUERY_CH):
+        before.setdefault(gs[k].line.split()[0], c06_obs(gs[k]))
+        k -= 1
+    k = i + 1
+    while k < len(gs) and gs[k].line.startswith(QUERY_CH):
+        after.setdefault(gs[k].line.split()[0], c06_obs(gs[k]))
+        k += 1
+    common = sorted(set(before) & set(after))
+    return [before[c] for c in common], [after[c] for c in common]
+
+
+def footprint_c06(script, gs, mg):
+    """What C06 speaks about: how a call that the reference log rejects (judged
+    in the state this side itself reports) is answered - the error kind - and
+    whether state / entries / cache statistics are the same right before and
+    right after it. A summary (set of distinct outcomes per error kind): which
+    calls are rejected depends on the whole history, which is C01's subject."""
+    rej = {i: v for i, v in impl_judged(script, gs).items() if v.startswith("err")}
+    out = set()
+    for i, verdict in rej.items():
+        if i >= len(gs):
+            continue
+        before, after = bracket(gs, i)
+        answered = ret_kind(gs[i].line)
+        if answered != "ret " + verdict or before != after:
+            out.add(f"{verdict}: answered `{answered}` {'same' if before == after else 'changed'}")
+    return sorted(out) if out else ["every self-judged rejected call refused with the judged error, observations unchanged"]
+
+
+def strip_rejected(script, mg):
+    """The twin history: the same script without the rejected calls (and the
+    queries bracketing them stay)."""
+    prim_idx = [k for k, l in enumerate(script) if l.split()[0] not in NO_OUTPUT]
+    rej = set(rejected_positions(mg))
+    drop = {prim_idx[i] for i in rej if i < len(prim_idx)}
+    return [l for k, l in enumerate(script) if k not in drop]
+
+
+def impl_judged(script, ig):
+    """Verdict of the reference log (Lean `RefLog.call`, through the driver's
+    `judge` command) on every write call, taken in the state the
+    implementation itself reported right before the call. -> {group: 'ok'|'err kind'}"""
+    prim = primary_cmds(script)
+    qs, pos = [], []
+    for i, cmd in enumerate(prim):
+        if cmd.split()[0] not in WRITE_WORDS or i >= len(ig):
+            continue
+        st = rd = None
+        k = i - 1
+        while k >= 0 and ig[k].line.startswith(QUERY_CH):
+            if ig[k].line.startswith("st ") and st is None:
+                st = ig[k].line
+            if ig[k].line.startswith("read ") and rd is None and prim[k] == f"read 0 {U64MAX}":
+                rd = ig[k].line
+            k -= 1
+        if st is None or rd is None or "err:" in rd or "panic" in rd or st == "st none":
+            continue
+        f = dict(x.split("=", 1) for x in st.split()[1:])
+        items = rd[len("read "):].strip()
+        ids = ";".join(x.split(":")[0] for x in items.split(";")) if items else "-"
+        qs.append(f"judge {f['vote']} {f['last']} {f['committed']} {f['purged']} {ids} {cmd}")
+        pos.append(i)
+    if not qs:
+        return {}
+    rc, out, _ = core._run_bin(core.DRIVER, "begin j\n" + "\n".join(qs) + "\nend\n", 120)
+    res = [l for l in out.splitlines() if l.startswith("judge") or l == "bad-op"]
+    return {p: r[len("judge "):] for p, r in zip(pos, res) if r.startswith("judge")}
+
+
 def oracle_c06(script, ig, mg):
-    """Spec equality on ret/st/read, plus: a call the spec rejects leaves
-    stat(cache)/res exactly as they were (the generator brackets every write
-    with `stat`,`res`)."""
-    fails = oracle_spec_equal({"ret", "st", "read"})(script, ig, mg)
-    if fails:
-        return fails
-    for i, (a, b) in enumerate(zip(ig, mg)):
-        sp = spec_lines(b)
-        if "ret" in sp and sp["ret"].startswith("ret err"):
-            before = [g.line for g in ig[max(0, i - 2):i] if g.line.startswith(("stat", "res"))]
-            after = [g.line for g in ig[i + 1:i + 3] if g.line.startswith(("stat", "res"))]
-            if len(before) == 2 and len(after) == 2:
-                b2 = [proj_c06(x) for x in before]
-                a2 = [proj_c06(x) for x in after]
-                if b2 != a2:
-                    fails.append(("rejected-write-changed-cache", {"group": i, "before": before, "after": after}))
-                    return fails
+    """For every call that the reference log rejects *in the state the
+    implementation itself reports before the call*: (1) the implementation
+    returns that error, and st/read/stat(cache)/res/size right after equal
+    those right before; (2) metamorphic: the same history without the rejected
+    calls gives the same observations everywhere else (later writes, flush,
+    restart) - implementation against implementation."""
+    fails = []
+    verdicts = impl_judged(script, ig)
+    rej = [i for i, v in sorted(verdicts.items()) if v.startswith("err")]
+    for i in rej:
+        want = "ret " + verdicts[i]
+        if ret_kind(ig[i].line) != want:
+            fails.append(("rejected-call-not-refused", {"group": i, "impl": ig[i].line, "spec": want}))
+            return fails
+        before, after = bracket(ig, i)
+        if before != after:
+            fails.append(("rejected-call-changed-state", {"group": i, "before": before, "after": after}))
+            return fails
+    if rej:
+        prim_idx = [k for k, l in enumerate(script) if l.split()[0] not in NO_OUTPUT]
+        drop = {prim_idx[i] for i in rej if i < len(prim_idx)}
+        twin = [l for k, l in enumerate(script) if k not in drop]
+        ti, _, _ = core.run_one(twin, "twin")
+        tg = core.groups_of(ti)
+        rs = set(rej)
+        full = [c06_obs(g) for k, g in enumerate(ig) if k not in rs]
+        tw = [c06_obs(g) for g in tg]
+        if full != tw:
+            k = next((j for j in range(min(len(full), len(tw))) if full[j] != tw[j]), min(len(full), len(tw)))
+            fails.append(("history-differs-from-twin-without-rejected-calls",
+                          {"at": k, "with": full[k] if k < len(full) else None,
+                           "without": tw[k] if k < len(tw) else None}))
     return fails
 
 
@@ -243,11 +355,12 @@ def scripts_c06(tier, rng):
         for l in g.script():
             w = l.split()[0]
             if w in ("vote", "app", "trunc", "purge", "commit", "ud"):
-                lines += ["stat", "res", l, "stat", "res"]
+                lines += ["st", f"read 0 {U64MAX}", "stat", "res", l, "st", f"read 0 {U64MAX}", "stat", "res"]
             else:
                 lines.append(l)
         # flush + restart at the end: the store must open and show the same state
-        lines += [f"flush 9999", "widle", "st", f"read 0 {U64MAX}", "drop", "open", "st", f"read 0 {U64MAX}"]
+        lines += [f"flush 9999", "widle", "st", f"read 0 {U64MAX}", "size", "dir", "drop", "open", "st",
+                  f"read 0 {U64MAX}", "size"]
         out.append((f"c06_{i}", lines))
         for k, v in g.stats.items():
             stats[k] = stats.get(k, 0) + v
@@ -322,7 +435,7 @@ PROPS = {
     "C06": dict(
         theorems=["c06_rejected_record_noop", "c06_err_is_noop", "c06_rejected_call_noop",
                   "c06_batch_rejected_entry_noop", "c06_spec_rejects_vote", "c06_spec_rejects_commit"],
-        gen=scripts_c06, project=proj_c06, oracle=oracle_c06,
+        gen=scripts_c06, project=proj_c06, footprint=footprint_c06, oracle=oracle_c06,
         explanation="a rejected call is a no-op on the whole model state",
         assumptions=OS_ASSUMPTIONS,
     ),
@@ -356,11 +469,27 @@ def known_classes(pid):
     return {f["class"]: f for f in k.get("findings", []) if f["property"] == pid}
 
 
+def footprint_diff(P, lines, impl, model):
+    """Compare the two streams on the property's footprint."""
+    if "footprint" in P:
+        ig = core.groups_of(impl)
+        mg = core.groups_of(model)
+        a = P["footprint"](lines, ig, mg)
+        b = P["footprint"](lines, mg, mg)
+        for i in range(max(len(a), len(b))):
+            x = a[i] if i < len(a) else "<missing>"
+            y = b[i] if i < len(b) else "<missing>"
+            if x != y:
+                return {"index": i, "impl": x, "model": y}
+        return None
+    return core.first_diff(impl, model, P["project"])
+
+
 def evaluate(pid, P, name, lines, impl, model):
     """-> (diff|None, oracle_fails)"""
     ig = core.groups_of(impl)
     mg = core.groups_of(model)
-    diff = core.first_diff(impl, model, P["project"])
+    diff = footprint_diff(P, lines, impl, model)
     fails = P["oracle"](lines, ig, mg)
     return diff, fails
 
@@ -419,7 +548,7 @@ def run_scripts(pid, P, scripts, tier, seed, search=True, stats=None):
 
         def still_diff(cand):
             i2, m2, _ = core.run_one(cand, "shrink")
-            return core.first_diff(i2, m2, P["project"]) is not None
+            return footprint_diff(P, cand, i2, m2) is not None
 
         small = core.ddmin(lines, still_diff) if search else lines
         found = None
@@ -437,7 +566,7 @@ def run_scripts(pid, P, scripts, tier, seed, search=True, stats=None):
             violations.append(("oracle", path, False))
         else:
             i2, m2, _ = core.run_one(small, "final")
-            d2 = core.first_diff(i2, m2, P["project"])
+            d2 = footprint_diff(P, small, i2, m2)
             path = core.write_replay(
                 pid, "correspondence", small, i2, m2,
                 {"first_difference": d2 or diff, "scripts_disagreeing": len(diffs)},
